@@ -5,12 +5,14 @@ VERIF = os.path.dirname(os.path.dirname(os.path.abspath(__file__)))
 ALL = ['C%02d' % i for i in range(1, 21)]
 names = [a for a in sys.argv[1:] if not a.startswith('--')]
 checks = ALL
+own_only = '--own' in sys.argv      # only the check of the change's own property; the entries of the other checks are kept as they were
 for a in sys.argv[1:]:
     if a.startswith('--checks='): checks = a.split('=')[1].split(',')
 def sh(c): return subprocess.run(c, shell=True, stdout=subprocess.PIPE, stderr=subprocess.STDOUT).stdout.decode()
 head = sh('git -C %s rev-parse --short HEAD' % VERIF).strip()
 for n in names:
     d = os.path.join(VERIF, 'seeded', n)
+    if own_only: checks = [json.load(open(os.path.join(d, 'meta.json')))['property']]
     res = sh('sh %s/vlib/mutlab.sh try %s/patch.diff %s' % (VERIF, d, ' '.join(checks)))
     caught = []; missed = []
     for c in checks:
@@ -19,6 +21,14 @@ for n in names:
         if mm: caught.append('%s (%s%s)' % (c, mm.group(1).strip(), '; no-failing-input-found' if nf else ''))
         else: missed.append(c)
     m = json.load(open(os.path.join(d, 'meta.json')))
-    m['caught_by'] = '; '.join(caught) if caught else 'MISSED'; m['missed_by'] = missed; m['reevaluated_at_verif_commit'] = head
+    if own_only:
+        own = checks[0]
+        old = [x for x in m.get('caught_by', '').split('; ') if x and x != 'MISSED' and not re.match(r'^%s\b' % own, x)]
+        allc = sorted(caught + old)
+        m['caught_by'] = '; '.join(allc) if allc else 'MISSED'
+        m['missed_by'] = [c for c in m.get('missed_by', []) if c != own] + ([own] if not caught else [])
+        m['own_check_reevaluated_at_verif_commit'] = head
+    else:
+        m['caught_by'] = '; '.join(caught) if caught else 'MISSED'; m['missed_by'] = missed; m['reevaluated_at_verif_commit'] = head
     json.dump(m, open(os.path.join(d, 'meta.json'), 'w'), indent=1)
     print(n, 'caught:', [c.split(' ')[0] for c in caught], flush=True)
